@@ -210,15 +210,15 @@ CHECKS["C07"] = dict(
     text="Tokenizer.consume_macro_params (the call-macro raw-capture loop) is verified from its real body (z3): the text it returns is the "
          "concatenation, in order, of every raw token pulled before the delimiter (loop invariant over the ghost token stream), spans first.start..last.end, "
          "the delimiter is a real `,`/`)` operator token, `)` is handed back and ends raw capture; consume_with_macro_params is verified as to control "
-         "flow, flags and span; Tokenizer.peek routes to the capture routine exactly when its flag is set and appends the result unfiltered; is_blank "
+         "flow, flags, span and WHAT it captures per token (whole source lines in the block form, the line from the token on in the one-line form); Tokenizer.peek routes to the capture routine exactly when its flag is set and appends the result unfiltered; is_blank "
          "keeps WS tokens under _proc_macro; Parser.macro_call/handle_with_macro_stmt/proc_macro_arg build one string Constant per captured text, in "
          "order, at the text's own position, and lower the flag (E1); flag protocol and routing of MACRO_PARAM strings on the parser IR. ~950 macro "
          "uses vs an independent bracket/string-aware splitter are the bounded stand-in (bracket protection of commas and the with-macro block text "
          "are covered only there).",
     design_ref="DESIGN.md 5/C07",
     note="ASSUMED: four ghost preconditions of consume_macro_params that its call site in peek() cannot establish (stream not exhausted while the "
-         "flag is set, empty push-back stack, non-empty operator lexemes, ordered token positions) - listed in the evidence; the text captured by "
-         "consume_with_macro_params is opaque in its contract; textwrap.dedent external.",
+         "flag is set, empty push-back stack, non-empty operator lexemes, ordered token positions) - listed in the evidence; how "
+         "consume_with_macro_params assembles the captured pieces (per-line dict, re.findall, textwrap.dedent) is not modelled.",
     technique="E1 loop invariants/postconditions on the real raw-capture loops and macro builders (z3) + protocol/routing contracts on the parser IR",
 )
 CHECKS["C10"] = dict(
